@@ -114,6 +114,9 @@ def check_C01(ctx):
             s.mode = mode; scens.append(s)
         for _ in range(n // 2):
             scens.append(Scen(gen_tree(rng), mode=mode))
+    # a test that announces skip_test() and then ends abnormally, everything else green (finding F02 in this property's terms: the run succeeds)
+    scens.append(Scen(S("top", items=[T("a", body=["P"]), T("v", body=["P", "S", "K11"]), T("b", body=["P"])]), mode="fork"))
+    scens.append(Scen(S("top", items=[S("inner", items=[T("v", body=["S", "E"])]), T("b", body=["P"])]), mode="fork"))
     # many failed checks: the verdict a test program passes on as its exit status is failure for every number of them (an exit
     # status keeps eight bits of what main() returns)
     for mode in ("fork", "inproc"):
@@ -190,6 +193,8 @@ def check_C03(ctx):
         c = sc.copy(); c.mode = "inproc"
         shared.append(c)
     scens += shared
+    # a test that announces skip_test() and then ends abnormally (finding F02 in this property's terms: its exception is in no total)
+    scens.append(Scen(S("top", items=[T("a", body=["P"]), T("v", body=["P", "S", "K11"]), T("b", body=["P", "F"])]), mode="fork"))
     reporters = ["text", "quiet", "cute", "libxml"]
     dis, orf = explore(ctx, bench, scens, reporters, oracle_C03, "C03")
     report(ctx, bench, dis, orf, oracle_C03, "C03")
